@@ -89,6 +89,11 @@ def write_case(rng, meta, pvp, raw, support, case, tmpdir, index_by):
         if plan.get('permute_pvp_fields'):
             pvp = cphdgen.permute_pvp_fields(rng, pvp)
         amp = {k: (v['AmpSF'] if 'AmpSF' in v.dtype.names else None) for k, v in pvp.items()}
+        # the caller's arrays may be big-endian (as the file), little-endian or native: the file must hold the VALUES
+        order = rng.choice(cphdwriter.BYTE_ORDERS)
+        raw_in = raw
+        pvp = {k: cphdwriter.reorder(v, order) for k, v in pvp.items()}
+        support = {k: cphdwriter.reorder(v, rng.choice(cphdwriter.BYTE_ORDERS)) for k, v in (support or {}).items()}
         chan_ids = [c.Identifier for c in meta.Data.Channels]
         sup_ids = [s.Identifier for s in (meta.Data.SupportArrays or [])]
         key = (lambda ids, k: ids.index(k)) if index_by == 'int' else (lambda ids, k: k)
@@ -96,7 +101,7 @@ def write_case(rng, meta, pvp, raw, support, case, tmpdir, index_by):
             if plan['formatted']:
                 w.write_file(pvp, {k: cphdgen.formatted(v, amp[k]) for k, v in raw.items()}, support or None)
             else:
-                w.write_file_raw(pvp, raw, support or None)
+                w.write_file_raw(pvp, {k: cphdwriter.reorder(v, order) for k, v in raw_in.items()}, support or None)
         else:
             for step in plan['order']:
                 if step == 'pvp':
@@ -114,10 +119,11 @@ def write_case(rng, meta, pvp, raw, support, case, tmpdir, index_by):
                         pieces = list(zip(edges[:-1], edges[1:]))
                         rng.shuffle(pieces)
                         for a, b in pieces:
+                            where = cphdwriter.place_kwargs(rng.choice(cphdwriter.FORMS + ['int']), a, b, not plan['formatted'], v.shape[1])
                             if plan['formatted']:
-                                w.write(cphdgen.formatted(v[a:b], None if amp[k] is None else amp[k][a:b]), start_indices=(a, 0), index=key(chan_ids, k))
+                                w.write(cphdgen.formatted(v[a:b], None if amp[k] is None else amp[k][a:b]), index=key(chan_ids, k), **where)
                             else:
-                                w.write_raw(v[a:b], start_indices=(a, 0, 0), index=key(chan_ids, k))
+                                w.write_raw(cphdwriter.reorder(v[a:b], rng.choice(cphdwriter.BYTE_ORDERS)), index=key(chan_ids, k), **where)
         w.close()
         if target == 'path':
             return open(path, 'rb').read()
